@@ -76,6 +76,9 @@ func c06Bases(ctx *core.Ctx) []faultBase {
 		// two signers: every failure a party sees comes from its single peer (per-peer error channels / counters of a
 		// round are then filled by one sender)
 		{Scenario{Proto: pump.EcSigning, N: 2, T: 1, KeyN: 3, Strategy: "fifo", Seed: s + 7}, 1},
+		// a resharing whose declared old party count exceeds the old peer context (as the library's own test sets it up):
+		// sender indices between the two are inside the declared range and outside every per-sender table
+		{Scenario{Proto: pump.EdReshare, N: 2, T: 1, KeyN: 3, NewN: 2, NewT: 1, Strategy: "fifo", Seed: s + 8, DeclaredOldN: 4}, 1},
 	}
 }
 
@@ -196,8 +199,8 @@ func c06Catalogue(ctx *core.Ctx) ([]FaultCase, error) {
 				cases = append(cases, FaultCase{Sc: sc, Dev: dev, Type: ws.Type, To: to, AfterAbort: true, RawWire: "othertype"})
 			}
 			// (3) sender indices
-			for _, idx := range []int{-1, sc.N + sc.NewN, sc.N + sc.NewN + 7, 1 << 30} {
-				if expensive && !ctx.Thorough() && idx != -1 && idx != sc.N+sc.NewN {
+			for _, idx := range []int{-1, sc.N, sc.N + 1, sc.NewN, sc.N + sc.NewN, sc.N + sc.NewN + 7, 1 << 30} {
+				if expensive && !ctx.Thorough() && idx != -1 && idx != sc.N+sc.NewN && idx != sc.N {
 					continue
 				}
 				cases = append(cases, FaultCase{Sc: sc, Dev: dev, Type: ws.Type, To: to, AfterAbort: true, AsFrom: idx + 1000000})
